@@ -192,6 +192,12 @@ def mergeChrom (d : Nat) (c : Nat) (l : List Iv) : Option (List Iv) :=
 def mergeFixed (d : Nat) (ivs : List Iv) : Option (List Iv) :=
   (omap (fun g => mergeChrom d g.1 g.2) (runs ivs)).map List.flatten
 
+/-- the in-memory entry points (`Geometry.merge_intervals`, `GenomicIntervalsFull.merged`): the conversion to
+concatenated coordinates is run first for its checks (an interval that does not lie inside its chromosome raises),
+then the per-chromosome merge -/
+def mergeChecked (d : Nat) (sizes : List Nat) (ivs : List Iv) : Option (List Iv) :=
+  if ivs.all (fun iv => iv.valid sizes) then mergeFixed d ivs else none
+
 /-- specification: for every chromosome in genome order, the single-contig merge of its own entries -/
 def specMerge (d : Nat) (n : Nat) (ivs : List Iv) : Option (List Iv) :=
   (omap (fun c => mergeChrom d c (ivs.filter (fun iv => iv.c = c))) (List.range n)).map List.flatten
